@@ -1,7 +1,7 @@
 /-
   Ark.Model.Sha256 — SHA-256 transcribed from FIPS 180-4 (§2.2.2 operations, §4.1.2 functions,
   §4.2.2 constants, §5.1.1 padding, §5.3.3 initial hash value, §6.2.2 hash computation),
-  on byte strings represented as `List Nat` (every entry < 256).
+  on byte strings represented as `List Nat` (every entry < 256); 32-bit words are `UInt32`.
 
   Used by C13 as the hash `H` of `expand_message_xmd` (the Rust code uses the `sha2` crate, which
   is *modelled, not verified*: the harness op `sha256` compares the crate with this file, and the
@@ -12,28 +12,29 @@ namespace Ark.Sha256
 
 abbrev Bytes := List Nat
 
-def W32 : Nat := 4294967296   -- 2^32
+/-- 32-bit words (FIPS 180-4 §2.2.1: w = 32): `UInt32`, whose `+` is addition modulo 2^32 -/
+abbrev Word := UInt32
 
-/-- ROTR^n(x) on 32-bit words (FIPS 180-4 §2.2.2 / §3.2) -/
-def rotr (n x : Nat) : Nat := ((x >>> n) ||| (x <<< (32 - n))) % W32
+/-- ROTR^n(x) on 32-bit words (FIPS 180-4 §2.2.2 / §3.2), `0 < n < 32` -/
+def rotr (n : UInt32) (x : Word) : Word := (x >>> n) ||| (x <<< (32 - n))
 /-- SHR^n(x) -/
-def shr (n x : Nat) : Nat := x >>> n
+def shr (n : UInt32) (x : Word) : Word := x >>> n
 
 /-- §4.1.2 (4.2) -/
-def ch (x y z : Nat) : Nat := (x &&& y) ^^^ ((W32 - 1 - x) &&& z)
+def ch (x y z : Word) : Word := (x &&& y) ^^^ (~~~x &&& z)
 /-- §4.1.2 (4.3) -/
-def maj (x y z : Nat) : Nat := (x &&& y) ^^^ (x &&& z) ^^^ (y &&& z)
+def maj (x y z : Word) : Word := (x &&& y) ^^^ (x &&& z) ^^^ (y &&& z)
 /-- §4.1.2 (4.4) Σ0 -/
-def bsig0 (x : Nat) : Nat := rotr 2 x ^^^ rotr 13 x ^^^ rotr 22 x
+def bsig0 (x : Word) : Word := rotr 2 x ^^^ rotr 13 x ^^^ rotr 22 x
 /-- §4.1.2 (4.5) Σ1 -/
-def bsig1 (x : Nat) : Nat := rotr 6 x ^^^ rotr 11 x ^^^ rotr 25 x
+def bsig1 (x : Word) : Word := rotr 6 x ^^^ rotr 11 x ^^^ rotr 25 x
 /-- §4.1.2 (4.6) σ0 -/
-def ssig0 (x : Nat) : Nat := rotr 7 x ^^^ rotr 18 x ^^^ shr 3 x
+def ssig0 (x : Word) : Word := rotr 7 x ^^^ rotr 18 x ^^^ shr 3 x
 /-- §4.1.2 (4.7) σ1 -/
-def ssig1 (x : Nat) : Nat := rotr 17 x ^^^ rotr 19 x ^^^ shr 10 x
+def ssig1 (x : Word) : Word := rotr 17 x ^^^ rotr 19 x ^^^ shr 10 x
 
 /-- §4.2.2: the first 32 bits of the fractional parts of the cube roots of the first 64 primes -/
-def K : List Nat := [
+def K : List Word := [
   0x428a2f98, 0x71374491, 0xb5c0fbcf, 0xe9b5dba5, 0x3956c25b, 0x59f111f1, 0x923f82a4, 0xab1c5ed5,
   0xd807aa98, 0x12835b01, 0x243185be, 0x550c7dc3, 0x72be5d74, 0x80deb1fe, 0x9bdc06a7, 0xc19bf174,
   0xe49b69c1, 0xefbe4786, 0x0fc19dc6, 0x240ca1cc, 0x2de92c6f, 0x4a7484aa, 0x5cb0a9dc, 0x76f988da,
@@ -44,7 +45,7 @@ def K : List Nat := [
   0x748f82ee, 0x78a5636f, 0x84c87814, 0x8cc70208, 0x90befffa, 0xa4506ceb, 0xbef9a3f7, 0xc67178f2]
 
 /-- §5.3.3: initial hash value H(0) -/
-def H0 : List Nat := [
+def H0 : List Word := [
   0x6a09e667, 0xbb67ae85, 0x3c6ef372, 0xa54ff53a, 0x510e527f, 0x9b05688c, 0x1f83d9ab, 0x5be0cd19]
 
 /-- big-endian encoding of `x` on `n` bytes (truncating) -/
@@ -60,51 +61,50 @@ def pad (msg : Bytes) : Bytes :=
   msg ++ [0x80] ++ List.replicate k 0 ++ beBytes 8 (8 * l)
 
 /-- §5.2.1 parsing: 32-bit big-endian words -/
-def toWords : Bytes → List Nat
-  | a :: b :: c :: d :: rest => (((a * 256 + b) * 256 + c) * 256 + d) :: toWords rest
+def toWords : Bytes → List Word
+  | a :: b :: c :: d :: rest => UInt32.ofNat (((a * 256 + b) * 256 + c) * 256 + d) :: toWords rest
   | _ => []
 
 /-- §6.2.2 step 1, for t = 16 … 63: `W_t = σ1(W_{t-2}) + W_{t-7} + σ0(W_{t-15}) + W_{t-16}`;
     the argument is the window `W_{t-16} … W_{t-1}`, the result the `n` next words -/
-def schedAux : Nat → List Nat → List Nat
+def schedAux : Nat → List Word → List Word
   | 0, _ => []
   | n + 1, ws =>
     match ws with
     | [w0, w1, w2, w3, w4, w5, w6, w7, w8, w9, w10, w11, w12, w13, w14, w15] =>
-      let nw := (ssig1 w14 + w9 + ssig0 w1 + w0) % W32
+      let nw := ssig1 w14 + w9 + ssig0 w1 + w0
       nw :: schedAux n [w1, w2, w3, w4, w5, w6, w7, w8, w9, w10, w11, w12, w13, w14, w15, nw]
     | _ => []
 
 /-- the message schedule `W_0 … W_63` of one 16-word block -/
-def schedule (blk : List Nat) : List Nat := blk ++ schedAux 48 blk
+def schedule (blk : List Word) : List Word := blk ++ schedAux 48 blk
 
 structure St where
-  a : Nat
-  b : Nat
-  c : Nat
-  d : Nat
-  e : Nat
-  f : Nat
-  g : Nat
-  h : Nat
+  a : Word
+  b : Word
+  c : Word
+  d : Word
+  e : Word
+  f : Word
+  g : Word
+  h : Word
 
 /-- §6.2.2 step 3: one round -/
-def round (s : St) (kw : Nat × Nat) : St :=
-  let t1 := (s.h + bsig1 s.e + ch s.e s.f s.g + kw.1 + kw.2) % W32
-  let t2 := (bsig0 s.a + maj s.a s.b s.c) % W32
-  { a := (t1 + t2) % W32, b := s.a, c := s.b, d := s.c, e := (s.d + t1) % W32, f := s.e, g := s.f, h := s.g }
+def round (s : St) (kw : Word × Word) : St :=
+  let t1 := s.h + bsig1 s.e + ch s.e s.f s.g + kw.1 + kw.2
+  let t2 := bsig0 s.a + maj s.a s.b s.c
+  { a := t1 + t2, b := s.a, c := s.b, d := s.c, e := s.d + t1, f := s.e, g := s.f, h := s.g }
 
 /-- §6.2.2: process one 512-bit block (16 words) -/
-def compress (hs : List Nat) (blk : List Nat) : List Nat :=
+def compress (hs : List Word) (blk : List Word) : List Word :=
   match hs with
   | [h0, h1, h2, h3, h4, h5, h6, h7] =>
     let s := (K.zip (schedule blk)).foldl round ⟨h0, h1, h2, h3, h4, h5, h6, h7⟩
-    [(h0 + s.a) % W32, (h1 + s.b) % W32, (h2 + s.c) % W32, (h3 + s.d) % W32,
-     (h4 + s.e) % W32, (h5 + s.f) % W32, (h6 + s.g) % W32, (h7 + s.h) % W32]
+    [h0 + s.a, h1 + s.b, h2 + s.c, h3 + s.d, h4 + s.e, h5 + s.f, h6 + s.g, h7 + s.h]
   | _ => hs
 
 /-- fold `compress` over consecutive 16-word blocks (`fuel` ≥ number of blocks) -/
-def blocks : Nat → List Nat → List Nat → List Nat
+def blocks : Nat → List Word → List Word → List Word
   | 0, hs, _ => hs
   | fuel + 1, hs, ws =>
     if ws.isEmpty then hs else blocks fuel (compress hs (ws.take 16)) (ws.drop 16)
@@ -112,7 +112,7 @@ def blocks : Nat → List Nat → List Nat → List Nat
 /-- SHA-256 of a byte string; 32 bytes -/
 def sha256 (msg : Bytes) : Bytes :=
   let ws := toWords (pad msg)
-  ((blocks (ws.length / 16 + 1) H0 ws).map (beBytes 4)).flatten
+  ((blocks (ws.length / 16 + 1) H0 ws).map (fun w => beBytes 4 w.toNat)).flatten
 
 /-! ### known-answer tests (FIPS 180-4 / NIST CAVP examples), evaluated when the file is compiled -/
 
